@@ -251,6 +251,9 @@ def _loopvar(fn, defs, iter_src, what, **bind):
 
 
 def adjacency(ctx):
+    from .. import sharededge
+
+    sharededge.shared_edge_columns(ctx)
     m = ctx.repo.mod(GRID)
     r = ctx.rule("ADJ-FILTER", "edge adjacency <-> 2 shared vertices, vertex adjacency <-> 1, both from the same element-to-element vertex-count matrix", 4)
     consts = {}
